@@ -866,7 +866,22 @@ class StmtMixin:
                 path = self.base_index(rec, self.ast.record_def(r[1])['id'])
                 if path is None:
                     self.err(ci, 'base initializer: base not found')
-                self.into(x, 'self->%s' % '.'.join(path), cx)
+                if x is not None and x.get('kind') == 'CXXInheritedCtorInitExpr':
+                    # implicit inheriting constructor (using Base::Base): forwards its own parameters to the base
+                    # constructor with the same parameter types
+                    brec = self.ast.record_def(r[1])
+                    want = self.strip_ws(re.sub(r'\)\s*noexcept.*$', ')', d['type']['qualType']))
+                    cands = [c for c in self.ast.methods(brec, ('CXXConstructorDecl',))
+                             if self.strip_ws(re.sub(r'\)\s*noexcept.*$', ')', c['type']['qualType'])) == want and not c.get('isImplicit')]
+                    if len(cands) != 1:
+                        self.err(ci, 'inherited constructor: %d base constructors match %s' % (len(cands), d['type']['qualType']))
+                    bctor = cands[0]
+                    self.need_fn(bctor) if hasattr(self, 'need_fn') else None
+                    args = ['&self->%s' % '.'.join(path)] + [self.var_cname(cx, pv) for pv in self.ast.params(d)]
+                    self.emit_pre(cx, '%s(%s);' % (self.fn_cname(bctor), ', '.join(args)))
+                    self.exc_check_if(bctor, cx)
+                else:
+                    self.into(x, 'self->%s' % '.'.join(path), cx)
             elif 'delegatingInit' in ci or ci.get('delegating'):
                 self.into(x, '(*self)', cx)
             else:
